@@ -3,6 +3,7 @@ import QR.Spec.Stream
 import QR.Proofs.Total
 import QR.Proofs.Pinned
 import QR.Proofs.Implicit
+import QR.Proofs.CapstoneE4
 /-
 C03 - compile succeeds or raises DataOverflowError, decided by capacity.
 `Model.compile cfg segs` mirrors `QRCode(version, error_correction, mask_pattern)` + `add_data` + `make(fit)`:
@@ -90,6 +91,146 @@ example : (⟨40, Spec.Level.H.indicator, some 7, false⟩ : Model.Cfg).Valid :=
 /-- the published boundaries, on the Spec side of `C03_iff`: 7089 / 7090 digits at 40-L, 17 / 18 bytes at 1-L -/
 example : Spec.fits 40 .L [(.numeric, 7089)] = true ∧ Spec.fits 40 .L [(.numeric, 7090)] = false ∧
     Spec.fits 1 .L [(.byte, 17)] = true ∧ Spec.fits 1 .L [(.byte, 18)] = false := by decide
+
+/-! ### Capstones: (ii) composed with (i) - THE WHOLE COMPILE ASSEMBLED FROM TRANSLATED PARTS satisfies the Spec-level statements.
+    `QR.CapstoneE4.compileSrc` (QR/Proofs/CapstoneE4.lean) is the cache-free compile of a fresh object
+    (`QRCode(version, error_correction, mask_pattern)`, `data_list = segs`, `make(fit)`) with the statement order, tests and call
+    arguments of main.py:QRCode.make as translated (`Gen.Code.make_*`, regenerated from /repo's current Python AST on every run)
+    and its four callees as PARAMETERS, instantiated below, explicitly, by the functions assembled from translated fragments:
+      `best_fit`            `CapstoneE1.bestFitSrc` (main.py:QRCode.best_fit, every statement; accumulation loop `segsBitsSrc`) over
+                            `modeSizesSrc` (util.py:mode_sizes_for_version), `checkVersionSrc` (util.py:check_version, run by the
+                            `version` setter), `writeBufSrc` (util.py:QRData.write on the translated BitBuffer: put, put_bit,
+                            __len__, get); `Gen.BIT_LIMIT_TABLE` is the table dumped from the running library; 4 = recursion
+                            fuel.  Model callee left: `bisectLeft` (bisect.bisect_left of the standard library)
+      `create_data`         `CapstoneE4.createDataSrc` (util.py:create_data, length_in_bits, base.py:rs_blocks, util.py:create_bytes
+                            with both interleaving loops and the `current_ec` computation `ecOfBlockSrc`) over `segsBitsBufSrc`
+                            (the segment loop on the translated BitBuffer: put, put_bit, QRData.__len__, QRData.write, bits read
+                            back by the translated __len__ / get).  Model callees left: `rsPolyFor`, `polyMk`, `polyMod` (generator
+                            lookup / fallback loop, `Polynomial.__init__`, `Polynomial.__mod__`; tied to the source under C02),
+                            and inside `QRData.write` `intOfDigits` (`int(chars)`)
+      `makeImpl`            `CapstoneE2.makeImplSrc` (main.py:QRCode.makeImpl with setup_position_probe_pattern,
+                            setup_position_adjust_pattern, setup_timing_pattern, util.py:pattern_position, setup_type_info,
+                            setup_type_number, util.py:BCH_type_info, BCH_type_number, map_data, the lambdas of util.py:mask_func)
+                            over `bchDigitSrc` (util.py:BCH_digit, translated `while` loop)
+      `best_mask_pattern`   `CapstoneE4.bestMaskSrc` (inside `compileSrc`: `range(mask_candidates)`, `makeImpl(True, i)`, the
+                            translated update test `pick_update`)
+      `lost_point`          `CapstoneE4.lostPointSrc` (util.py:lost_point and its four scanners, all translated)
+    `find_bytes` = `ALPHA_NUM.find` on a one-character bytes object, with the hypothesis `hfb` of the bridge kept.
+    Hand-assembled, not translated: the `for` / `while` skeletons of the assemblers (fuel where a `while` has no static bound),
+    the `if pattern == k` dispatch of `mask_func`, the two caches (`data_cache` = `create_data` run once;
+    `precomputed_qr_blanks` = always a miss), the representation functions (`bitsBE`, `packBytes`, `Mat.toBMat`: `BitBuffer.put` as
+    a bit list, `buffer.buffer`, `self.modules` read as Booleans).
+    `compileCallsSrc` puts the translated main.py:QRCode.add_data (`sg_add_data`, with util.py:optimal_data_chunks,
+    _optimal_split, QRData.__init__, optimal_mode, to_bytestring; the `re` engine as `SourceTieD1.pyModel F enc`: `searchModel` /
+    `matchModel`, `F d ≥ len(d)` iterations for each `while data:`) in front.  No other Model function occurs in a conclusion.
+    All from `QR.CapstoneE4.compileSrc_eq_refined` / `compileCallsSrc_eq_refined` (= `bestFitSrc_eq`, `createDataSrc_eq`,
+    `makeImplSrc_eq`, `SourceTie.pick_eq`, `SourceTieD3.lost_point_src`, `segsLoopSrc_eq`, `segWrite_bytes_src`, `bchDigit_src`,
+    `addData_src`) and the property theorems above. -/
+section Capstone
+open QR.Model QR.Gen.Code QR.SourceTieA QR.SourceTieD1 QR.CapstoneE1 QR.CapstoneE2 QR.CapstoneE4
+
+/-- **capstone, main.py:QRCode.make -> best_fit -> util.py:create_data -> best_mask_pattern -> makeImpl (the whole compile, see the
+    section comment for what is translated and what is a parameter)**: for every valid configuration, each of the four levels and
+    every list of valid segments, the compile assembled from the translated source either succeeds or raises DataOverflowError -
+    nothing else, for any data content; from `compileSrc_eq_refined` and `C03_total`. -/
+theorem C03_source_capstone_total (find_bytes : List Nat → R Nat) (hfb : ∀ a, find_bytes [a] = alphaFind a)
+    (cfg : Model.Cfg) (hcfg : cfg.Valid) (l : Spec.Level) (hl : cfg.level = l.indicator)
+    (segs : List Model.Seg) (hv : ∀ s ∈ segs, s.Valid) :
+    (∃ r, compileSrc (bestFitSrc modeSizesSrc (segsBitsSrc (writeBufSrc find_bytes)) Gen.BIT_LIMIT_TABLE bisectLeft checkVersionSrc 4)
+        (createDataSrc (segsBitsBufSrc find_bytes) (ecOfBlockSrc rsPolyFor polyMk polyMod)) (makeImplSrc bchDigitSrc) lostPointSrc cfg segs = .ok r) ∨
+    compileSrc (bestFitSrc modeSizesSrc (segsBitsSrc (writeBufSrc find_bytes)) Gen.BIT_LIMIT_TABLE bisectLeft checkVersionSrc 4)
+        (createDataSrc (segsBitsBufSrc find_bytes) (ecOfBlockSrc rsPolyFor polyMk polyMod)) (makeImplSrc bchDigitSrc) lostPointSrc cfg segs
+      = .error .dataOverflow := by
+  rw [compileSrc_eq_refined find_bytes hfb cfg (hl ▸ Sym.indicator_lt l)]
+  exact C03_total cfg hcfg l hl segs hv
+
+/-- **capstone, same chain: the criterion** - the assembled compile raises DataOverflowError exactly when the closed-form ISO
+    length of the bit stream (`Spec.fits`: mode indicators, count fields of the version's class, data bits against the Table 7
+    capacity) exceeds the capacity of the largest admissible version: the requested one when fitting is off, 40 otherwise; from
+    `compileSrc_eq_refined` and `C03_iff`. -/
+theorem C03_source_capstone_iff (find_bytes : List Nat → R Nat) (hfb : ∀ a, find_bytes [a] = alphaFind a)
+    (cfg : Model.Cfg) (hcfg : cfg.Valid) (l : Spec.Level) (hl : cfg.level = l.indicator)
+    (segs : List Model.Seg) (hv : ∀ s ∈ segs, s.Valid) (ps : List Spec.PSeg) (hp : toPSegs segs = some ps) :
+    compileSrc (bestFitSrc modeSizesSrc (segsBitsSrc (writeBufSrc find_bytes)) Gen.BIT_LIMIT_TABLE bisectLeft checkVersionSrc 4)
+        (createDataSrc (segsBitsBufSrc find_bytes) (ecOfBlockSrc rsPolyFor polyMk polyMod)) (makeImplSrc bchDigitSrc) lostPointSrc cfg segs
+      = .error .dataOverflow ↔
+      Spec.fits (if cfg.version ≠ 0 ∧ cfg.fit = false then cfg.version else 40) l (segCounts ps) = false := by
+  rw [compileSrc_eq_refined find_bytes hfb cfg (hl ▸ Sym.indicator_lt l)]
+  exact C03_iff cfg hcfg l hl segs hv ps hp
+
+/-- **capstone, same chain: the result** - when the assembled compile succeeds, the version it reports is in 1..40 and adequate
+    (`Spec.fits`), it is the Spec's smallest adequate version from the requested start when fitting (the requested version when
+    fitting is off; the smallest adequate one overall when none was requested), the mask is one of the eight patterns, and a
+    requested mask is the one used; from `compileSrc_eq_refined`, `C03_version` and `C03_ok_range`. -/
+theorem C03_source_capstone_version (find_bytes : List Nat → R Nat) (hfb : ∀ a, find_bytes [a] = alphaFind a)
+    (cfg : Model.Cfg) (hcfg : cfg.Valid) (l : Spec.Level) (hl : cfg.level = l.indicator)
+    (segs : List Model.Seg) (hv : ∀ s ∈ segs, s.Valid) (ps : List Spec.PSeg) (hp : toPSegs segs = some ps)
+    (v m : Nat) (M : Model.Mat)
+    (h : compileSrc (bestFitSrc modeSizesSrc (segsBitsSrc (writeBufSrc find_bytes)) Gen.BIT_LIMIT_TABLE bisectLeft checkVersionSrc 4)
+        (createDataSrc (segsBitsBufSrc find_bytes) (ecOfBlockSrc rsPolyFor polyMk polyMod)) (makeImplSrc bchDigitSrc) lostPointSrc cfg segs
+      = .ok (v, m, M)) :
+    (if cfg.fit then Spec.minVersion cfg.version l (segCounts ps) = some v
+     else (cfg.version ≠ 0 → v = cfg.version) ∧ (cfg.version = 0 → Spec.minVersion 0 l (segCounts ps) = some v)) ∧
+    (∀ m', cfg.mask = some m' → m = m') ∧ 1 ≤ v ∧ v ≤ 40 ∧ m ≤ 7 ∧ Spec.fits v l (segCounts ps) = true := by
+  rw [compileSrc_eq_refined find_bytes hfb cfg (hl ▸ Sym.indicator_lt l)] at h
+  obtain ⟨a, b⟩ := C03_version cfg hcfg l hl segs hv ps hp v m M h
+  exact ⟨a, b, C03_ok_range cfg hcfg l hl segs hv ps hp v m M h⟩
+
+/-- **capstone, main.py:QRCode.add_data (translated, with the segmentation below it) -> the chain above**: byte strings added by
+    `add_data(d, optimize=n)` (any thresholds; `re` = `searchModel` / `matchModel`, each `while data:` granted `F d ≥ len(d)`
+    iterations), any valid configuration: the translated `add_data` calls followed by the assembled compile either succeed or
+    raise DataOverflowError - `add_data` itself raises nothing; from `compileCallsSrc_eq_refined` (`C10_source_addData`),
+    `Sym.addData_valid` and `C03_total`. -/
+theorem C03_source_capstone_total_calls (find_bytes : List Nat → R Nat) (hfb : ∀ a, find_bytes [a] = alphaFind a)
+    (F enc) (hF : ∀ d : List Nat, d.length ≤ F d)
+    (cfg : Model.Cfg) (hcfg : cfg.Valid) (l : Spec.Level) (hl : cfg.level = l.indicator)
+    (calls : List (List Nat × Nat)) (hb : ∀ p ∈ calls, ∀ c ∈ p.1, c < 256) :
+    (∃ r, compileCallsSrc (pyModel F enc)
+        (bestFitSrc modeSizesSrc (segsBitsSrc (writeBufSrc find_bytes)) Gen.BIT_LIMIT_TABLE bisectLeft checkVersionSrc 4)
+        (createDataSrc (segsBitsBufSrc find_bytes) (ecOfBlockSrc rsPolyFor polyMk polyMod)) (makeImplSrc bchDigitSrc) lostPointSrc cfg calls = .ok r) ∨
+    compileCallsSrc (pyModel F enc)
+        (bestFitSrc modeSizesSrc (segsBitsSrc (writeBufSrc find_bytes)) Gen.BIT_LIMIT_TABLE bisectLeft checkVersionSrc 4)
+        (createDataSrc (segsBitsBufSrc find_bytes) (ecOfBlockSrc rsPolyFor polyMk polyMod)) (makeImplSrc bchDigitSrc) lostPointSrc cfg calls
+      = .error .dataOverflow := by
+  rw [compileCallsSrc_eq_refined F enc hF find_bytes hfb cfg (hl ▸ Sym.indicator_lt l)]
+  refine C03_total cfg hcfg l hl _ (fun s hs => ?_)
+  obtain ⟨p, hp, hsp⟩ := List.mem_flatMap.mp hs
+  exact Sym.addData_valid p.1 p.2 (hb p hp) s hsp
+
+/-- **capstone, main.py:QRCode.make on the real object, with both caches** (`QR.CapstoneE3.makeSrc`: `make(fit)` assembled from its
+    translated pieces `Gen.Code.make_*` - `self.data_cache = None`, the `version` read, `if fit or ...: self.best_fit(start=...)`,
+    the `mask_pattern is None` test, the two `makeImpl(False, ...)` calls; PARTLY translated chain: the callees `best_fit`,
+    `best_mask_pattern`, `makeImpl` inside `makeSrc` are the Model's state-threading `bestFitS`, `bestMaskS`, `makeImplS`, tied to
+    the source by `C11_source_*` / `C07_source_*` / `C05_source_*`): on any object with valid settings, valid data and a sound
+    process-wide cache of blanks `g` (`GInv`), the assembled `make(fit)` returns normally or raises DataOverflowError, nothing else;
+    from `SourceTieB.makeS_src`, `makeS_error` (History) and `C03_total`. -/
+theorem C03_source_capstone_make_total (fit : Bool) (g : Model.Global) (s : Model.QRState) (l : Spec.Level)
+    (hg : GInv g) (hver : s.version ≤ 40) (hm : ∀ m, s.mask = some m → m ≤ 7) (hl : s.level = l.indicator)
+    (hsegs : ∀ x ∈ s.dataList, x.Valid) :
+    (QR.CapstoneE3.makeSrc fit g s).2 = .ok () ∨ (QR.CapstoneE3.makeSrc fit g s).2 = .error .dataOverflow := by
+  rw [← QR.CapstoneE3.makeS_eq_makeSrc]
+  cases h : makeS fit (g, s) with
+  | mk st r =>
+    obtain ⟨g', s'⟩ := st
+    cases r with
+    | ok u => exact Or.inl rfl
+    | error e =>
+      have hc := (makeS_error hg h).2.2.2.2 hver
+      rcases C03_total (cfgOf s fit) ⟨hver, hm⟩ l hl s.dataList hsegs with ⟨r, hr⟩ | hr
+      · rw [hc] at hr; cases hr
+      · rw [hc] at hr; cases hr; exact Or.inr rfl
+
+set_option maxRecDepth 100000 in
+/-- both sides of `C03_source_capstone_iff` at a concrete input, evaluated by the kernel on the assembled translated definitions:
+    18 bytes at version 1-L with fitting off - the assembled compile raises DataOverflowError, and `Spec.fits` says `false`
+    (17 bytes is the published capacity of 1-L) -/
+example : (match compileSrc (bestFitSrc modeSizesSrc (segsBitsSrc (writeBufSrc findBytes1)) Gen.BIT_LIMIT_TABLE bisectLeft checkVersionSrc 4)
+        (createDataSrc (segsBitsBufSrc findBytes1) (ecOfBlockSrc rsPolyFor polyMk polyMod)) (makeImplSrc bchDigitSrc) lostPointSrc
+        { version := 1, level := Spec.Level.L.indicator, mask := none, fit := false } [⟨4, List.replicate 18 65⟩] with
+    | .error .dataOverflow => true
+    | _ => false) = true ∧ Spec.fits 1 .L [(.byte, 18)] = false := ⟨by decide +kernel, by decide⟩
+
+end Capstone
 
 /-- the Python functions this property's model mirrors have, in /repo's current working tree, exactly the normalised
     ASTs the model was written and validated against (fingerprints regenerated by T1 on every run) -/
